@@ -1,3 +1,4 @@
 (* C17 — proofs: see ProofsFs.v (file system), ProofsRot.v (size rotation),
-   ProofsTrot.v (time rotation) *)
-From MV Require Export C17.Model C17.ProofsFs C17.ProofsRot C17.ProofsTrot.
+   ProofsTrot.v (time rotation), ProofsFmt.v (truncation of over-long lines),
+   ProofsLog.v (whole write functions = truncate + write) *)
+From MV Require Export C17.Model C17.ProofsFs C17.ProofsRot C17.ProofsTrot C17.ProofsFmt C17.ProofsLog.
